@@ -17,6 +17,7 @@ from ..cfg import explore, must_facts, canon_fact, holds
 from ..rules import call_sites, node_calls, require_after, event_facts
 from ..mutate import mutate, remove_stmts, replace_stmt, replace_expr, parse_stmt, parse_expr
 from ..model import AnalysisError
+from ..x_scope import strip_annotations
 from ..x_flow import protected, resolve_local, unique_def, expanded_facts
 
 TECHNIQUE = "lock-discipline lint (guarded-by, wait-in-loop with folded wake predicate, notify-after-write) + ordering typestate on the CFG + who-may-call / thread-confinement ownership rules"
@@ -950,6 +951,7 @@ def rule_shutdown(ck, N):
 
 
 def run(ck):
+    ck.repo = strip_annotations(ck.repo, F)
     ck.rule("C40.guarded-by", "the hand-off slot _select_args and the shutdown flag _closing_selector are read and written only under `with <obj>._select_cond` (outside __init__)")
     ck.rule("C40.wait-loop", "Condition.wait() is called only inside a while loop, under the lock, whose test is true exactly when the slot is empty and no shutdown was requested")
     ck.rule("C40.notify-after-write", "every write that can end the wait (slot := sets, flag := True) is followed by notify() on the same condition on every normal path")
